@@ -200,4 +200,76 @@ let check inp obs =
       detail = (if prop && !eq then "" else Printf.sprintf "%s model=%s" (String.concat "; " (List.rev !why)) model_s) }
   | _ -> fail "C26: bad input %s" inp
 
-let () = run_driver check
+(* vm_compute cross-check: the whole case re-run inside Coq (ModelSkip.vm_case) *)
+let coq inp obs =
+  let coq_nat i = Printf.sprintf "(%d)%%nat" i in
+  let hx s = int_of_n (n_of_hex s) in
+  let coq_hdr = function
+    | Imp i -> Printf.sprintf "(Imp %s)" (coq_nat (int_of_nat i))
+    | Fresh (p, s) -> Printf.sprintf "(Fresh %s %s)" (coq_nat (int_of_nat p)) (coq_n s) in
+  let coq_emap s =
+    if s = "-" then "[]" else
+    "[" ^ String.concat "; " (List.map (fun el -> match String.split_on_char ':' el with
+      | [e; l] -> Printf.sprintf "(%s, [%s])" (coq_n (n_of_hex e))
+          (if l = "" then "" else String.concat "; " (List.map (fun bd -> match String.split_on_char '.' bd with
+             | [b; d] -> Printf.sprintf "(%s, %s)" (coq_nat (hx b)) (coq_n (n_of_hex d))
+             | _ -> raise Exit) (String.split_on_char '+' l)))
+      | _ -> raise Exit) (String.split_on_char ';' s)) ^ "]" in
+  let strip p s = let l = String.length p in
+    if String.length s >= l && String.sub s 0 l = p then String.sub s l (String.length s - l) else raise Exit in
+  let res s =
+    if String.length s > 3 && String.sub s 0 3 = "ok." then `Ok (n_of_hex (sub s 3))
+    else if s = "err.epoch" then `Err 1 else if s = "err.hash" then `Err 2
+    else if s = "err.other" then `Err 3 else raise Exit in
+  match split_ws inp with
+  | ["tree"; elen; bl; al; dl; ql] ->
+    (try
+      let t = List.map (fun b -> match String.split_on_char ',' b with
+        | [p; s] -> (hx p, n_of_hex s) | _ -> raise Exit) (lst bl) in
+      let nb = List.length t in
+      let anns = List.map (fun a -> match String.split_on_char ',' (sub a 1) with
+        | [b; d] -> (a.[0], hx b, n_of_hex d) | _ -> raise Exit) (lst al) in
+      let ordered = List.concat (List.init nb (fun k -> List.filter (fun (_, b, _) -> b = k + 1) anns)) in
+      let dbs = List.map (fun a -> match String.split_on_char ',' (sub a 1) with
+        | [e; d] -> (a.[0], n_of_hex e, n_of_hex d) | _ -> raise Exit) (lst dl) in
+      let db k = List.rev (List.filter_map (fun (k', e, d) -> if k' = k then Some (e, d) else None) dbs) in
+      let coq_db l = "[" ^ String.concat "; " (List.map (fun (e, d) -> Printf.sprintf "(%s, %s)" (coq_n e) (coq_n d)) l) ^ "]" in
+      let otoks = split_ws obs in
+      let na = List.length ordered in
+      let qs = lst ql in
+      if List.length otoks <> na + 2 + List.length qs then raise Exit;
+      List.iteri (fun i o -> if i < na && o <> "a=ok" then raise Exit) otoks;
+      let me = coq_emap (strip "ME=" (List.nth otoks na)) and mc = coq_emap (strip "MC=" (List.nth otoks (na + 1))) in
+      let oq = List.filteri (fun i _ -> i >= na + 2) otoks in
+      let vo_plain o = match res o with
+        | `Ok d -> Printf.sprintf "VOok %s" (coq_n d) | `Err c -> Printf.sprintf "VOerr %s" (coq_nat c) in
+      let one (q, o) = match String.split_on_char ',' q with
+        | ["R"; _; _] ->
+          (match String.split_on_char '/' o with
+           | ["R"; a; b] -> Printf.sprintf "(VQR, VOr %s %s)" (coq_emap (strip "ME=" a)) (coq_emap (strip "MC=" b))
+           | _ -> raise Exit)
+        | [("E" | "C") as k; sc; h] ->
+          let (se, ce) = match String.split_on_char '.' sc with [a; b] -> (n_of_hex a, n_of_hex b) | _ -> raise Exit in
+          (match String.split_on_char '/' o with
+           | [r; m] ->
+             let m = coq_emap (strip (if k = "E" then "ME=" else "MC=") m) in
+             Printf.sprintf "(VQ%s %s %s %s, %s)" k (coq_n se) (coq_n ce) (coq_hdr (parse_hdr h))
+               (match res r with `Ok d -> Printf.sprintf "VOokm %s %s" (coq_n d) m | `Err c -> Printf.sprintf "VOerrm %s %s" (coq_nat c) m)
+           | _ -> raise Exit)
+        | ["g"; _; h] -> Printf.sprintf "(VQg %s, VOep %s)" (coq_hdr (parse_hdr h)) (coq_n (n_of_hex (strip "ep." o)))
+        | [("e" | "c") as k; e; h] ->
+          if e = "n" then (match String.split_on_char '@' o with
+            | [ep; r] -> Printf.sprintf "(VQ%s true %s %s, %s)" k (coq_n (n_of_hex ep)) (coq_hdr (parse_hdr h)) (vo_plain r)
+            | _ -> raise Exit)
+          else Printf.sprintf "(VQ%s false %s %s, %s)" k (coq_n (n_of_hex e)) (coq_hdr (parse_hdr h)) (vo_plain o)
+        | _ -> raise Exit in
+      Some (Printf.sprintf "vm_case [%s] %s [%s] %s %s %s %s [%s]"
+        (String.concat "; " (List.map (fun (p, s) -> Printf.sprintf "(%s, %s)" (coq_nat p) (coq_n s)) t))
+        (coq_n (n_of_hex elen))
+        (String.concat "; " (List.map (fun (k, b, d) -> Printf.sprintf "(%s, %s, %s)" (if k = 'e' then "true" else "false") (coq_nat b) (coq_n d)) ordered))
+        (coq_db (db 'e')) (coq_db (db 'c')) me mc
+        (String.concat "; " (List.map one (List.combine qs oq))))
+    with Exit | Failure _ | Not_found | Invalid_argument _ -> None)
+  | _ -> None
+
+let () = run_driver ~coq check
